@@ -66,6 +66,20 @@ class PoolObjState(PoolObj):
         return self._n
 
 
+class PoolObjEq(PoolObj):
+    """a value-style pool object: all objects of this class compare equal to each other (and hash alike), as records with
+    equal fields do; which of them is registered is a matter of identity, never of equality"""
+
+    def __eq__(self, other):
+        return isinstance(other, PoolObjEq)
+
+    def __ne__(self, other):
+        return not isinstance(other, PoolObjEq)
+
+    def __hash__(self):
+        return 7
+
+
 class PoolObjK(PoolObj):
     """a pool object whose CLASS is registered as a class as well (class index 2): the daemon makes session instances
     of it without arguments, those answer ["cls", 2]; the pool instance answers and logs like any pool object"""
@@ -109,7 +123,7 @@ class PoolObjSlots:
 
 # (the subclasses are not class-exposed: that would publish __len__ / __bool__ as remote methods; who() is inherited exposed)
 SHAPES = {"plain": PoolObj, "len0": PoolObjLen, "bool0": PoolObjBool, "state": PoolObjState, "inst": PoolObjK,
-          "frozen": PoolObjFrozen, "noweak": PoolObjSlots}
+          "frozen": PoolObjFrozen, "noweak": PoolObjSlots, "eq": PoolObjEq}
 
 
 @api.expose
